@@ -182,6 +182,10 @@ fn answer(line: &str, cap: usize) -> String {
             }
         }
         "prove" => catch_unwind(AssertUnwindSafe(|| emit::prove_line(line))).unwrap_or_else(|_| "panic".to_string()),
+        "vchals" => {
+            let toks: Vec<&str> = line.split(' ').filter(|s| !s.is_empty()).collect();
+            catch_unwind(AssertUnwindSafe(|| emit::vchals_line(&toks))).unwrap_or_else(|_| "panic".to_string())
+        }
         "verify" | "vroundtrip" | "proofdec" => {
             let toks: Vec<&str> = line.split(' ').filter(|s| !s.is_empty()).collect();
             let (r, peak) = peak_during(|| {
